@@ -139,7 +139,7 @@ class C08(Prop):
         "digitize_textize_digitize", "textize_canonical_spelling", "revcomp_spec", "revcomp_involutive",
         "avg_score_is_mean", "avg_score_nonresidue", "expect_score_is_weighted_mean", "count_splits_equally", "degen_set_examples",
         "custom_create_wf", "custom_alphabets_wf", "custom_digitize_textize_digitize",
-        "dsqcat_spec", "dsqcat_appends_digitization", "std_inmap_clean", "sq_text_complement_table", "sq_text_revcomp_agrees", "cdealign_spec", "xdealign_spec",
+        "dsqcat_spec", "dsqcat_appends_digitization", "std_inmap_clean", "sq_text_complement_table", "sq_text_revcomp_agrees", "cdealign_spec", "xdealign_spec", "custom_create_wfdegen", "custom_inmap_ops_keep_degen",
     )]
     claimed = True
     technique = ("Lean 4 proof: table theorems closed by `decide` over the whole regenerated tables (vs a hand-written IUPAC statement), "
@@ -151,11 +151,13 @@ class C08(Prop):
                   "complements the set. Theorems for EVERY alphabet and EVERY byte string (induction, no length bound): Digitize = sentinel + code of "
                   "each non-ignored character + sentinel with eslEINVAL iff some character is outside the alphabet ('any' substituted, bytes >= 0x80 "
                   "included); Textize spells codes; Digitize.Textize.Digitize = Digitize for well-formed alphabets; textize(digitize s) = canonical "
-                  "spelling for the 5 built-in alphabets; the in-place swap loop of esl_abc_revcomp = reverse+complement and is an involution; over Q the AvgScore/ExpectScore loops compute the (weighted) mean over the degeneracy set and Count splits the weight equally; every custom alphabet built by CreateCustom + SetEquiv/SetCaseInsensitive/SetDegeneracy/SetIgnored is well-formed (so all conversion theorems apply to it). "
+                  "spelling for the 5 built-in alphabets; the in-place swap loop of esl_abc_revcomp = reverse+complement and is an involution; over Q the AvgScore/ExpectScore loops compute the (weighted) mean over the degeneracy set and Count splits the weight equally; every custom alphabet built by CreateCustom + SetEquiv/SetCaseInsensitive/SetDegeneracy/SetIgnored is well-formed (so all conversion theorems apply to it), and CreateCustom's degeneracy tables are well-formed; esl_abc_dsqcat_noalloc = appending the digitisation (never the eslEINCONCEIVABLE exception for a clean input map); the in-place CDealign/XDealign loops keep exactly the columns of non-gap non-missing reference positions; the text-mode switch of esl_sq_ReverseComplement agrees with the digital complement table. "
                   "The hand model is tied to the tree by an exact differential run (all single bytes, random strings up to 10^4, custom alphabets).")
     level_note = ("Trusted: Lean kernel + propext/Classical.choice/Quot.sound; table dumper; fidelity of the hand model is checked (not proved) by the "
                   "differential run; score/count averaging is compared bit-exactly (binary64/binary32) and monitored against the exact mean; "
-                  "esl_abc_GuessAlphabet, EncodeType/DecodeType, ValidateSeq error text, *ScVec wrappers are not modelled.")
+                  "esl_abc_GuessAlphabet, EncodeType/DecodeType, ValidateSeq error text, *ScVec wrappers are not modelled; "
+                  "SetDegeneracy keeping ndegen = |set| (needs distinct members, fresh symbol) and the integer rounding of IAvgScore/IExpectScore are tied by the "
+                  "differential run only.")
     diverge_is_violation = True
     trusted_base = ["table dumper translate/tables_alphabet.py (prints the fields of esl_alphabet_Create() of the working tree)",
                     "hand model of esl_alphabet.c conversion loops and constructors tied by exact differential run (h_alphabet.c, ASan+UBSan)",
@@ -163,7 +165,7 @@ class C08(Prop):
     assumptions = ["custom alphabets: symbols are non-NUL 7-bit characters (the C constructor does not check; it would write outside inmap[])",
                    "digital sequences handed to Textize/revcomp/dealign contain valid codes (< Kp); other codes are an out-of-bounds read in C = fault in the model",
                    "allocation never fails (eslEMEM paths not modelled)",
-                   "esl_abc_Match: y is a residue code (documented precondition); the pinned code tests x twice in its guard and returns NaN for a gap y (proposed fix /var/tmp/fixes-proposed/C08-match-guard.patch); the model follows the documentation",
+                   "esl_abc_Match: comparisons involving gap/nonresidue/missing/invalid codes return 0.0 (repaired in the tree: the guard tested x twice)",
                    "esl_alphabet_SetEquiv(a, sym, '\\0') is outside the generator (strchr finds the terminating NUL: returns eslOK and maps sym to the invalid code Kp)",
                    "esl_abc_dsqcat with an explicit length treats a NUL byte as inmap[0] = 'unknown' with eslOK (documented: inmap[0] is special); mirrored, not judged"]
     rule = ("cases = one alphabet (3 standard + coins/dice + random custom alphabets) and a history of conversions on strings of "
@@ -330,7 +332,9 @@ class C08(Prop):
                 p = [v + 1e-3 for v in prob(K)]
                 ops.append("iexpect x=%d sc=%s p=%s" % (rng.choice(safe_x), ",".join(str(rng.randrange(-1000, 1000)) for _ in range(K)), ",".join(fbits(v) for v in p)))
             elif r < 0.82:
-                y = rng.choice(safe_x)     # y is always a residue code: for a gap/missing y the code divides 0 by 0 (it tests x twice; see report)
+                ry = rng.random()    # residue codes mostly; gap / nonresidue / missing / invalid codes must give 0.0 (documented)
+                y = rng.choice(safe_x) if ry < 0.7 else (rng.choice([K, Kp - 2, Kp - 1, rng.randrange(0, Kp)]) if ry < 0.93 else rng.randrange(Kp, 256))
+                if rng.random() < 0.1: x = rng.choice([K, Kp - 2, Kp - 1])
                 if rng.random() < 0.5: ops.append("match x=%d y=%d" % (x, y))
                 else: ops.append("match x=%d y=%d p=%s" % (x, y, ",".join(dbits(v) for v in prob(K))))
             elif r < 0.92:
@@ -557,6 +561,9 @@ class C08(Prop):
                 got = undbits(l.split()[1])
                 if x < a.K and y < a.K:
                     if got != (1.0 if x == y else 0.0): return Failure("monitor", "match of canonical %d,%d is %r" % (x, y, got))
+                elif not (x < a.Kp and a.is_residue(x)) or not (y < a.Kp and a.is_residue(y)):
+                    if got != 0.0 or math.isnan(got):
+                        return Failure("monitor", "match x=%d y=%d involves a gap/nonresidue/missing/invalid code and returns %r (documented 0.0)" % (x, y, got))
                 elif a.is_residue(x) and a.is_residue(y) and "p" not in d:
                     sx = {i for i in range(a.K) if a.degen[x][i]}; sy = {i for i in range(a.K) if a.degen[y][i]}
                     if sx and sy:
